@@ -17,7 +17,7 @@ def encode(tr):
 
 def validate_many(traces):
     """returns list: None (not applicable), True (accepted) or a message"""
-    idx = [i for i, t in enumerate(traces) if not t.cfg.multi and t.outcome == 1]
+    idx = [i for i, t in enumerate(traces) if t.outcome == 1 and t.cfg.drain == 1]
     res = [None] * len(traces)
     if not idx: return res
     outs = driver_eval([encode(traces[i]) for i in idx])
